@@ -412,5 +412,34 @@ def decResp (msg : Bytes) : Option Resp :=
       | .ok r => some r
       | .error _ => none
 
+/-! ### side effects of `encode()` on the object, and `decode()` into an already used object -/
+
+/-- the request object after a successful `encode()`: `WriteMultipleCoilsRequest.encode` stores
+    `self.byte_count = (len(values)+7)//8`; no other request class assigns to `self` -/
+def postEncReq : Req → Req
+  | .writeCoils a cnt _ vs => .writeCoils a cnt ((vs.length + 7) / 8) vs
+  | r => r
+
+/-- the response object after a successful `encode()`: only `ReadDeviceInformationResponse.encode`
+    assigns to `self` (`number_of_objects`, and `more_follows`/`next_object_id` when out of space) -/
+def postEncResp : Resp → Resp
+  | .readDeviceInfo rc conf mf nxt num info =>
+    match encObjects info 247 0 with
+    | .ok (_, num', some oid) => .readDeviceInfo rc conf 0xFF oid num' info
+    | .ok (_, num', none) => .readDeviceInfo rc conf mf nxt num' info
+    | .error _ => .readDeviceInfo rc conf mf nxt num info
+  | r => r
+
+/-- `obj.decode(data)` on an object that already holds the state `o` (same class).  Every class assigns
+    its fields afresh, except `ReadWriteMultipleRegistersResponse.decode`, which appends to `registers`. -/
+def decodeIntoResp (o : Resp) (d : Bytes) : PyM Resp :=
+  match o with
+  | .readWrite old => do
+    let bc ← idx d 0
+    let r ← decRegsStrict d 1 (rangeLen 1 bc 2)
+    pure (.readWrite (old ++ r))
+  | .exception fc _ => do let c ← idx d 0; pure (.exception fc c)
+  | o => decRespBody o.fc d
+
 end Impl
 end Pymodbus
